@@ -33,6 +33,19 @@ type c03Case struct {
 	Build    string `json:"build,omitempty"`
 	StaleLen int    `json:"stale_len,omitempty"`
 	Via      string `json:"via,omitempty"`
+	// Warm: an earlier complete exchange on the same connection, with the other minor version and sequence
+	// number 1, on the same session id ("same-session") or another one ("other-session"): whatever the
+	// side under test keeps from it must not leak into the pad of the packet that is judged
+	Warm string `json:"warm,omitempty"`
+}
+
+// warm returns header and cleartext of the warm-up request (an empty CONTINUE-shaped body).
+func (c c03Case) warm() (model.Header, []byte) {
+	sess := c.Session
+	if c.Warm == "other-session" {
+		sess ^= 1
+	}
+	return model.Header{Version: 0xc0 | (1 - c.Minor), Type: model.TypeAuthen, Seq: 1, Flags: c.Flags & model.FlagUnencrypted, Session: sess, Length: 5}, []byte{0, 0, 0, 0, 0}
 }
 
 // body builds a cleartext of exactly n bytes that is length-consistent under the authentication
@@ -122,6 +135,7 @@ func genC03(t *rapid.T) c03Case {
 		c.StaleLen = rapid.SampledFrom([]int{0, 0, 5, c.N + 20, 65536}).Draw(t, "stale_len")
 		c.Via = rapid.SampledFrom([]string{"send", "send-only"}).Draw(t, "via")
 	}
+	c.Warm = rapid.SampledFrom([]string{"", "", "same-session", "same-session", "other-session"}).Draw(t, "warm_up")
 	c.PeerSecret = c.Secret
 	if c.Flags&model.FlagUnencrypted != 0 && rapid.Bool().Draw(t, "different_peer_secret") {
 		c.PeerSecret = genSecret(t, "peer_secret")
@@ -168,6 +182,15 @@ func runC03(t failer, c c03Case) {
 		} else {
 			reqClear = []byte{0, 0, 0, 0, 0} // an empty CONTINUE as the request
 		}
+		nwarm := 0
+		if c.Warm != "" {
+			ev.Class("warm-up:" + c.Warm)
+			wh, wclear := c.warm()
+			if _, _, wclosed, err := d.send(model.Frame(c.PeerSecret, wh, wclear)); err != nil || wclosed {
+				fail("warm-up-refused", "the warm-up exchange (a well-formed packet, seq 1, other minor version) was refused: closed=%v err=%v", wclosed, err)
+			}
+			nwarm = 1
+		}
 		wire := model.Frame(c.PeerSecret, h, reqClear)
 		pkts, rest, closed, err := d.send(wire)
 		if err != nil {
@@ -177,10 +200,10 @@ func runC03(t failer, c c03Case) {
 			t.Fatalf("%v", e)
 		}
 		reqs := rh.requests()
-		if len(reqs) != 1 {
-			fail("request-not-delivered", "handler saw %d requests for one well-formed packet (closed=%v)", len(reqs), closed)
+		if len(reqs) != 1+nwarm {
+			fail("request-not-delivered", "handler saw %d requests for %d well-formed packet(s) (closed=%v)", len(reqs), 1+nwarm, closed)
 		}
-		got := reqs[0]
+		got := reqs[nwarm]
 		if c.Dir == "server-read" {
 			if !bytes.Equal(got.Body, clear) {
 				fail("cleartext-differs", "handler received a body that is not the cleartext (len %d vs %d, first difference at %d)", len(got.Body), len(clear), firstDiff(got.Body, clear))
@@ -229,6 +252,13 @@ func runC03(t failer, c c03Case) {
 			reqH.Seq = h.Seq - 1
 			reqClear = []byte{0, 0, 0, 0, 0}
 		}
+		if c.Warm != "" {
+			ev.Class("warm-up:" + c.Warm)
+			wh, wclear := c.warm()
+			wrep := wh
+			wrep.Seq = 2
+			conn.Feed(model.Frame(c.PeerSecret, wrep, wclear))
+		}
 		if repH.Seq == 0 { // 255+1 does not exist: the peer simply closes
 			conn.FeedEOF()
 		} else {
@@ -242,6 +272,20 @@ func runC03(t failer, c c03Case) {
 			lh.Length = uint32(c.StaleLen)
 			pkt = &tq.Packet{Header: lh, Body: append([]byte{}, reqClear...)}
 		}
+		skip := 0
+		if c.Warm != "" {
+			wh, wclear := c.warm()
+			if p := catch(func() {
+				_, werr := cl.Send(tq.NewPacket(tq.SetPacketHeader(libHeader(wh)), tq.SetPacketBody(wclear)))
+				if werr != nil {
+					fail("warm-up-refused", "the warm-up exchange through Client.Send failed: %v", werr)
+				}
+			}); p != nil {
+				fail("panic", "Client.Send panics: %v", p)
+			}
+			w, _ := conn.Written()
+			skip = len(w)
+		}
 		var resp *tq.Packet
 		var serr error
 		if p := catch(func() {
@@ -254,6 +298,7 @@ func runC03(t failer, c c03Case) {
 			fail("panic", "Client.Send panics: %v", p)
 		}
 		out, _ := conn.Written()
+		out = out[skip:]
 		if c.Dir == "client-write" {
 			reqH.Length = uint32(len(reqClear))
 			want := model.Frame(c.Secret, reqH, reqClear)
